@@ -302,6 +302,7 @@ type modSet struct {
 	ghost bool
 	keys  map[string]bool
 	pats  []string
+	iscopy bool
 }
 
 // callMods adds what a call inside a loop may modify (mirrors callEffect).
@@ -361,6 +362,11 @@ func (vc *VC) callMods(ins ssa.CallInstruction, ms *modSet) {
 		for g := range gn {
 			if k, _, ok := vc.ghostKey(g); ok {
 				ms.keys[k] = true
+			}
+		}
+		if gn["iscopy$"] && c.Signature() != nil {
+			for i := 0; i < c.Signature().Results().Len(); i++ {
+				ms.keys[vc.iscopyKey(c.Signature().Results().At(i).Type())] = true
 			}
 		}
 	}
@@ -532,6 +538,7 @@ func (vc *VC) loopHeader(li *loopInfo) {
 	hs := entrySt.derive()
 	hs.havocKeys = ms.keys
 	hs.havocPats = ms.pats
+	hs.havocIscopy = ms.iscopy
 	if ms.all {
 		hs.havocHeap = true
 		hs.havocGhst = true
